@@ -106,6 +106,7 @@ func c19Variants(r *rand.Rand, b evBoard, me tak.Color) []evBoard {
 }
 
 func c19SolverFamily(c *ctx) {
+	c19CrossSize(c)
 	r := c.r
 	for inst := 0; inst < 60*c.scale; inst++ {
 		size := 3 + inst%6
@@ -219,6 +220,134 @@ func c19SolverFamily(c *ctx) {
 	}
 }
 
+// c19CrossSize: ONE solver instance serves a board of size a and then a LARGER board of size b (the public Prove switches it
+// over, as when an analysis session moves on to another game).  The positions asked on the larger board have, square INDEX by
+// square index, exactly the contents of positions the instance was asked on the smaller board: the same bitboards, heights and
+// stack words, hence the same Hash() - but another geometry, so a road threat of the small board is (almost always) none on
+// the large one.  Whatever the instance keyed by bitboards or by Hash() must not survive the change of size.
+func c19CrossSize(c *ctx) {
+	r := c.r
+	for inst := 0; inst < 40*c.scale; inst++ {
+		a := 3 + inst%5
+		b := a + 1 + r.Intn(8-a)
+		if b > 8 {
+			b = 8
+		}
+		type item struct {
+			small evBoard
+			move  int
+		}
+		var items []item
+		maxSt, maxCp := b, 0
+		for k := 0; k < 10; k++ {
+			bd, me, _, _ := threatBoard(r, a)
+			evTrim(bd)
+			move := 2 + 2*r.Intn(10)
+			if me == tak.Black {
+				move++
+			}
+			st, cp := evCount(bd)
+			for _, v := range st {
+				if v > maxSt {
+					maxSt = v
+				}
+			}
+			for _, v := range cp {
+				if v > maxCp {
+					maxCp = v
+				}
+			}
+			items = append(items, item{bd, move})
+		}
+		if maxSt+maxCp+3 > 255 {
+			continue
+		}
+		cfgA := tak.Config{Size: a, Pieces: maxSt + 1, Capstones: maxCp + 1}
+		cfgB := tak.Config{Size: b, Pieces: maxSt + 1, Capstones: maxCp + 1}
+		d := prove.NewDFPN(&prove.DFPNConfig{TableMem: 1 << 16})
+		fin := func(cfg tak.Config) *tak.Position {
+			f := evNew(cfg.Size)
+			for x := 0; x < cfg.Size; x++ {
+				f[0][x] = tak.Square{tak.MakePiece(tak.White, tak.Flat)}
+			}
+			fp, err := tak.FromSquares(cfg, f, 2*cfg.Size)
+			if err != nil {
+				panic(err)
+			}
+			return fp
+		}
+		if pk, msg := safely(func() { d.Prove(fin(cfgA)) }); pk {
+			c.printf("ORACLE-FAIL solver-panic | %s | Prove panicked on a finished game: %s | a verdict\n", enc(fin(cfgA)), msg)
+			continue
+		}
+		c.stat("solver_instances_cross_size", 1)
+		var hist []string
+		ask := func(p *tak.Position) bool {
+			a0 := absOf(p)
+			if over, _, _ := a0.outcome(); over {
+				return true
+			}
+			var rep bool
+			var who tak.Color
+			pk, msg := safely(func() { rep, who = prove.VerifSolve(d, p) })
+			c.stat("solver_detector_calls", 1)
+			if pk {
+				c.printf("ORACLE-FAIL solver-detector-panic | %s | panic: %s | an answer\n", enc(p), msg)
+				return false
+			}
+			hist = append(hist, enc(p))
+			if len(hist) > 14 {
+				hist = hist[1:]
+			}
+			if !rep {
+				return true
+			}
+			c.stat("solver_detector_reports", 1)
+			okI, _ := implRoadWin(p)
+			okR, _ := rulesRoadWin(a0)
+			if who != p.ToMove() || !okI || !okR {
+				c.printf("ORACLE-FAIL solver-phantom-threat | solverseq;%d;%d;%d;%s | DFPNSolver.solve on a solver instance that served a %dx%d board before this %dx%d board reports an immediate road win for %v on the LAST position (side to move %v); one-ply road win by implementation search: %v, by rules oracle: %v | a legal move of the side to move that completes its road\n",
+					p.Size(), cfgB.Pieces, cfgB.Capstones, strings.Join(hist, "@"), a, a, b, b, who, p.ToMove(), okI, okR)
+			}
+			return true
+		}
+		ok := true
+		for _, it := range items {
+			p, err := tak.FromSquares(cfgA, it.small, it.move)
+			if err != nil {
+				panic(err)
+			}
+			if !ask(p) {
+				ok = false
+				break
+			}
+		}
+		if !ok {
+			continue
+		}
+		if pk, msg := safely(func() { d.Prove(fin(cfgB)) }); pk {
+			c.printf("ORACLE-FAIL reused-solver-panic | %s | Prove panicked on a finished game of another size: %s | a verdict\n", enc(fin(cfgB)), msg)
+			continue
+		}
+		for _, it := range items {
+			big := evNew(b)
+			for y := range it.small {
+				for x := range it.small[y] {
+					i := y*a + x
+					big[i/b][i%b] = it.small[y][x]
+				}
+			}
+			p, err := tak.FromSquares(cfgB, big, it.move)
+			if err != nil {
+				panic(err)
+			}
+			if !ask(p) {
+				break
+			}
+		}
+	}
+}
+
 // c19SolverReplay: input `solverseq;<size>;<pieces>;<capstones>;<enc>@<enc>...`: one fresh solver instance is asked about the
 // positions in order; the last answer is judged.
 func c19SolverReplay(c *ctx, inp string) bool {
@@ -233,13 +362,15 @@ func c19SolverReplay(c *ctx, inp string) bool {
 	fmt.Sscan(f[1], &size)
 	d := prove.NewDFPN(&prove.DFPNConfig{TableMem: 1 << 16})
 	encs := strings.Split(f[4], "@")
+	lastSize := 0
 	for i, e := range encs {
 		p, err := evDecode(e)
 		if err != nil {
 			fmt.Println("bad position in replay:", err)
 			return true
 		}
-		if i == 0 {
+		if i == 0 || p.Size() != lastSize {
+			lastSize = p.Size()
 			fin := evNew(p.Size())
 			for x := 0; x < p.Size(); x++ {
 				fin[0][x] = tak.Square{tak.MakePiece(tak.White, tak.Flat)}
